@@ -319,6 +319,11 @@ CORPUS = [
     dict(kind="gabor", scale=dict(name="linear", low_hz=0.0, slope_hz=1.0), num_filts=6, high=3500.0, low=0.0, rate=8000, l2=False, erb=False, via_config=True),
     dict(kind="gammatone", scale=dict(name="bark"), num_filts=6, high=3800.0, low=0.0, rate=8000, l2=False, erb=False, order=4, max_centered=False, via_config=True),
     dict(kind="tri", scale=dict(name="linear", low_hz=0.0, slope_hz=2.0), num_filts=5, high=3000.0, low=100.0, rate=8000, analytic=True, via_config=True),
+    # a NORMALISED sampling rate (1.0: frequencies in cycles per sample) with a thousand filters: vertices half a millihertz
+    # apart, perfectly representable - and DFTs fine enough to put bins inside such filters
+    dict(kind="tri", scale=dict(name="linear", low_hz=0.0, slope_hz=1.0), num_filts=1023, high=0.5, low=0.0, rate=1.0, analytic=False,
+         widths=[4096, 2048]),
+    dict(kind="fbank", scale=dict(name="mel"), num_filts=255, high=0.5, low=0.0, rate=1.0, analytic=True, widths=[4096]),
     # ... and banks whose accessor results were modified in place by the caller before anything else is asked of them
     dict(kind="tri", scale=dict(name="mel"), num_filts=6, high=3800.0, low=100.0, rate=8000, analytic=False, poke_accessors=True),
     dict(kind="tri", scale=dict(name="bark"), num_filts=9, high=None, low=20.0, rate=16000, analytic=True, poke_accessors=True),
@@ -506,6 +511,7 @@ def oracle_triangle(ctx, cfg, bank, verts, r, viol):
     # next odd width, full response of that length): anything cached per bank must be keyed by the width
     w2 = 2 * r.randrange(8, 40)
     widths += [w2, w2 + 1, w2 // 2 + 1]
+    widths += list(cfg.get("widths", []))     # widths a fixed configuration asks for (fine enough to put bins inside its filters)
     filts = sorted({0, n - 1, r.randrange(n)})
     for W in widths:
         for i in filts:
